@@ -400,6 +400,21 @@ theorem C17_text_injective (showCost : Rat → Str) (rowCost : Codes → Rat →
   rw [h, h2] at h1
   exact (Option.some.inj h1).symm
 
+/-- The hygiene of the body follows from the hygiene of the DATABASE: every path shown is the path of a
+record, every row a (taxon, spans) entry of that record. -/
+theorem C17_text_okBody_of_db (i : Input) (b : List (Bucket × List Section)) (h : body i = some b)
+    (hp : okPrograms i.programs = true) : okBody b = true := by
+  simp only [okBody, List.all_eq_true]
+  intro g hg s hs
+  obtain ⟨rec, hrec, hrows⟩ := C17_rows i b h g hg s hs
+  have hmem := dictGet?_mem hrec
+  simp only [okPrograms, List.all_eq_true, Bool.and_eq_true] at hp
+  obtain ⟨h1, h2⟩ := hp _ hmem
+  simp only [okSection, okRow, Bool.and_eq_true, List.all_eq_true]
+  refine ⟨h1, fun r hr => ?_⟩
+  have := h2 _ ((hrows r).mp hr).1
+  simpa [Bool.and_eq_true, List.all_eq_true] using this
+
 /-- **Membership, on the text.** What is read from the text of the report of `i` lists each assessed,
 non-hidden program exactly once and no other. -/
 theorem C17_text_membership (i : Input) (b : List (Bucket × List Section)) (h : body i = some b)
@@ -468,6 +483,8 @@ example : (renderBody showFloat (rowCostText true) 30 exampleBody).map String.of
      "", "## 1 program of learning cost in [1, 2[",
      "", "### Program b.py (learning cost 1.375)", "", "| Cost  | Taxon | Location |", "|----|----|----|",
      "| 0.75 | `x/y` | 1-2, 5 |", "| 0.5 | `z` | _imported_ |", "", "---"] := by decide +kernel
+
+example : okPrograms (exampleInput true).programs = true := by decide +kernel
 
 example : (splitLines (joinLines (renderBody showFloat (rowCostText true) 30 exampleBody))).length = 30 := by
   decide +kernel
